@@ -1,5 +1,7 @@
 package main
 
+import "strings"
+
 // Matchers for known findings. Each looks at the cause of a violation, not at a whole history, so that a
 // different violation of the same property is still reported.
 
@@ -64,5 +66,77 @@ func init() {
 			}
 		})
 		return hit
+	}
+}
+
+func factInts(v *Violation, name string) []int64 {
+	if v.Facts == nil {
+		return nil
+	}
+	switch x := v.Facts[name].(type) {
+	case []int64:
+		return x
+	case []any:
+		var out []int64
+		for _, e := range x {
+			if f, ok := e.(float64); ok {
+				out = append(out, int64(f))
+			}
+		}
+		return out
+	}
+	return nil
+}
+
+func init() {
+	// A version that is not retained (deleted, or never imported) is treated as available because a node
+	// still needed by a retained version is stored under its root key (v,1): version discovery and
+	// GetRoot only test that key. The violating operation must target exactly such a version.
+	matchers["phantom_version_root_key_survives"] = func(c *MatchCtx) bool {
+		ph := factInts(c.V, "phantom_root_keys")
+		if len(ph) == 0 || len(c.Hist) == 0 {
+			return false
+		}
+		last := c.Hist[len(c.Hist)-1]
+		is := func(v int64) bool {
+			for _, p := range ph {
+				if p == v {
+					return true
+				}
+			}
+			return false
+		}
+		switch last.Kind {
+		case OpLoadVersion, OpLVFO, OpDelFrom:
+			return c.V.Oracle == "api" && is(last.Ver)
+		case OpReopen:
+			return c.V.Oracle == "api" && last.Ver > 0 && is(last.Ver)
+		}
+		// state oracles of C14 name the version they complain about
+		if c.V.OpVer != 0 || c.V.Oracle == "versions/phantom" {
+			return is(c.V.OpVer)
+		}
+		return false
+	}
+}
+
+func finalModel(cfg Cfg, hist []Op) *Model {
+	w := &World{Cfg: cfg, M: NewModel(cfg.IV, cfg.IVSet)}
+	for _, op := range hist {
+		w.modelOnly(op)
+	}
+	return w.M
+}
+
+func init() {
+	// Same root cause as c02_proof_on_uncommitted_tree_with_initial_version, observed by the proof oracle
+	// itself: a proof taken from the uncommitted first working tree of a store with InitialVersion > 1 is
+	// computed for version 1 and does not verify against the canonical working hash.
+	matchers["c03_working_proof_initial_version"] = func(c *MatchCtx) bool {
+		if !c.Cfg.IVSet || c.Cfg.IV <= 1 || c.V.Oracle != "proofs/proof" || !strings.HasPrefix(c.V.Detail, "working") {
+			return false
+		}
+		m := finalModel(c.Cfg, c.Hist)
+		return m.Cur == 0 && m.Latest == 0
 	}
 }
